@@ -639,6 +639,10 @@ class Executor:
             if attr in hc.fields:
                 p.loads.append((f'{base.cls}.{attr}', base.z, node.lineno))
                 fv = heap_load(p.heap, base, base.cls, attr)
+                if isinstance(fv, VOpt) and attr not in getattr(hc, 'dynamic', ()) \
+                        and z3.is_false(z3.simplify(fv.isnone)):
+                    # the field was just assigned a value on this path (select over store simplifies): not None
+                    fv = fv.val
                 if attr in getattr(hc, 'dynamic', ()):
                     # attribute that __init__ does not create: reading it before its first store raises
                     out = []
@@ -1010,6 +1014,27 @@ class Executor:
                                 self.contract.props if self.contract else [], 'call-pre', node.lineno)
                     p.add(z3.Not(v.isnone))
                     v = v.val
+                if isinstance(v, VRec) and v.name in UNIONS and t.kind == 'rec' and t.name in UNIONS[v.name].members:
+                    # a value of the payload union passed where the callee needs one member class: the callee would
+                    # fail on any other class, so "it is that member" is a call-site obligation (the type of a payload
+                    # returned by a lookup is known through the opaque ptype(): revealed here)
+                    rec_sort(v.name)
+                    u = UNIONS[v.name]
+                    tmp_ctx = self.ctx(p, {'__u': v})
+                    if 'ptype' in SPECS:
+                        self.spec.ev(ast.parse('reveal(ptype(__u))', mode='eval').body, tmp_ctx)
+                    self.oblige(p, u.test[t.name](v.z), f'{self.func.qual.split(".", 1)[1]}/{cname}/arg-{n}-is-{t.name}',
+                                self.contract.props if self.contract else [], 'call-pre', node.lineno)
+                    p.add(u.test[t.name](v.z))
+                    v = VRec(t.name, u.acc[t.name](v.z))
+                if isinstance(v, VRec) and v.name == 'ChildSaReq' and t.kind == 'rec' and t.name == 'ChildSa':
+                    # the same python class seen with list-valued selectors: the callee's view keeps every scalar
+                    # field and knows nothing about the selectors (over-approximation)
+                    fr = fresh(t, 'childsa_view')
+                    for f_ in RECS['ChildSa'].fields:
+                        if f_ not in ('tsi', 'tsr'):
+                            p.add(same(rec_get(fr, f_), rec_get(v, f_)))
+                    v = fr
                 try:
                     v = from_z3(to_z3(v, t), t)
                 except VError as ex:
@@ -1043,6 +1068,10 @@ class Executor:
                 for src in getattr(c, 'exc_ensures', []) or []:
                     # what the callee guarantees about the state it leaves behind when it raises
                     q.add(self.spec.bool(ast.parse(src, mode='eval').body, qctx))
+                for rc, clauses in (getattr(c, 'exc_ensures_for', None) or {}).items():
+                    if rc == cls:
+                        for src in clauses.values():
+                            q.add(self.spec.bool(ast.parse(src, mode='eval').body, qctx))
                 for gname, src in (getattr(c, 'defines_exc', None) or {}).items():
                     q.ghost[gname] = self.spec.ev(ast.parse(src, mode='eval').body, qctx)
                 exc = self.sym_exception(cls, c, env, q, qctx)
@@ -1068,6 +1097,10 @@ class Executor:
         nctx.env = env2
         for cl in c.ensures:
             p.add(self.spec.bool(cl.ast, nctx))
+        for src in getattr(c, 'call_facts', None) or []:
+            # naming facts ASSUMED at call sites and not proved in the callee: "this (pure, deterministic) function's
+            # result is f(arguments)" for an uninterpreted f -- lets other contracts talk about that result
+            p.add(self.spec.bool(ast.parse(src, mode='eval').body, nctx))
         for gname, src in (getattr(c, 'defines', None) or {}).items():
             # observer ghosts: the contract exposes a value of the callee to its callers by definition
             p.ghost[gname] = self.spec.ev(ast.parse(src, mode='eval').body, nctx)
